@@ -25,6 +25,7 @@ void run(Src &src, Case &c)
         gRunner = new CodeRunner();
     }
     GtOptions opt;
+    opt.nlaBareKnown = true;
     GtModel gt = genGroundTruthModel(src, opt);
     Built b = buildApi(gt.spec);
     c.text = specToText(gt.spec) + "\n" + gt.describe();
